@@ -359,6 +359,11 @@ class CallMixin:
                 terms.append(p.t)
             elif isinstance(p, NoneV):
                 shape.append("N")
+            elif isinstance(p, SeqV) and p.arr is not None and isinstance(p.off, int) and p.off == 0:
+                # an (array-backed) input sequence: the array and its length are arguments of the ghost function
+                shape.append("q")
+                terms.append(p.arr)
+                terms.append(z3.simplify(p.n))
             else:
                 raise Unsupported(f"recurrence {rec.name}: parameter of unsupported kind {p!r}")
         key = ("".join(shape), tuple(terms))
@@ -367,7 +372,7 @@ class CallMixin:
         step_fv = self.sidecar_function(rec.step)
         done = ctx.recur_done.setdefault(done_key, set())
         value = self.recurrence_value(rec, key, z3.simplify(index))
-        if ctx.quant_depth:
+        if ctx.quant_depth and not getattr(self, "small_instances", 0):
             # the index mentions a bound variable: no instantiation here (instances come from the
             # ground uses of the recurrence on the path)
             return value
@@ -375,7 +380,11 @@ class CallMixin:
         if "init" not in done:
             done.add("init")
             pending.append(("init", None))
-        for j in (z3.simplify(index - 1), z3.simplify(index)):
+        wanted = [z3.simplify(index - 1), z3.simplify(index)]
+        if getattr(self, "small_instances", 0):
+            # counterexample search on small inputs: the defining equations at every index that can occur
+            wanted += [z3.IntVal(j) for j in range(self.small_instances)]
+        for j in wanted:
             tag = str(j.sexpr())
             if tag not in done:
                 done.add(tag)
